@@ -96,6 +96,19 @@ func c15funcs(r *report.Report, l *report.Local, in c15in) {
 	if rl != 8 {
 		r.Violate("MilenageGenerate/res_len", in.String(), fmt.Sprint(rl), nil)
 	}
+	// the caller assembles the token in place: SQN and AMF are handed over as the first octets of the AUTN buffer itself
+	{
+		a2 := make([]byte, 16)
+		copy(a2[0:6], in.sqn)
+		copy(a2[6:8], in.amf)
+		r3, c3, i3, k3 := make([]byte, 8), make([]byte, 16), make([]byte, 16), make([]byte, 6)
+		rl3 := uint(8)
+		if perr := recoverErr(func() { milenage.MilenageGenerate(opc, a2[6:8], in.k, a2[0:6], in.rand, a2, i3, c3, k3, r3, &rl3) }); perr != nil {
+			r.Violate("MilenageGenerate/panic", in.String()+" (in place)", perr.Error(), nil)
+		} else {
+			cmp("MilenageGenerate/autn-assembled-in-place", a2, refcrypto.AUTN(in.k, wantOpc, in.rand, in.sqn, in.amf))
+		}
+	}
 	l.Case("funcs "+in.String(), true, fmt.Sprintf("%x%x", macA, res))
 }
 
@@ -192,6 +205,20 @@ func c15auts(r *report.Report, l *report.Local, in c15in, opc, auts, ueSqn []byt
 	if perr := recoverErr(func() { ret = milenage.Milenage_auts(opc, in.k, in.rand, auts, out) }); perr != nil || ret != 0 || !bytes.Equal(out, ueSqn) {
 		r.Violate("Milenage_auts/valid-rejected", cs, fmt.Sprintf("ret=%d sqn=%x err=%v", ret, out, perr), nil)
 	}
+	// the token handed over in a scratch buffer longer than its 14 octets (produced into one by Milenage_check, too)
+	for _, n := range []int{15, 16, 32} {
+		ik, ck, res, big := make([]byte, 16), make([]byte, 16), make([]byte, 8), bytes.Repeat([]byte{0xa5}, n)
+		rl := uint(0)
+		autn := refcrypto.AUTN(in.k, opc, in.rand, ueSqn, in.amf) // a network SQN equal to the UE's: stale
+		var ret1, ret2 int
+		out2 := make([]byte, 6)
+		if perr := recoverErr(func() {
+			ret1 = milenage.Milenage_check(opc, in.k, append([]byte{}, ueSqn...), in.rand, autn, ik, ck, res, &rl, big)
+			ret2 = milenage.Milenage_auts(opc, in.k, in.rand, big, out2)
+		}); perr != nil || ret1 != -2 || !bytes.Equal(big[:14], want) || ret2 != 0 || !bytes.Equal(out2, ueSqn) {
+			r.Violate("Milenage_auts/token-in-a-longer-buffer", cs+fmt.Sprintf(" AUTS buffer of %d octets", n), fmt.Sprintf("check=%d auts=%x auts-check=%d sqn=%x err=%v", ret1, big, ret2, out2, perr), nil)
+		}
+	}
 }
 
 func c15autsCorrupt(r *report.Report, l *report.Local, in c15in, opc, auts []byte, what string) {
@@ -233,7 +260,7 @@ func runC15(ctx *Ctx) {
 	k0, op0, rand0 := hx("465b5ce8b199b49faa5f0a2ee238a6bc"), hx("cdc202d5123e20f62b6d676ac72cb318"), hx("23553cbe9637a89d218ae64dae47bf35")
 	sqn0, amf0 := hx("ff9bb4d0b607"), hx("b9b9")
 	r.Rule = fmt.Sprintf("f1..f5*/OPc/AUTN: one-at-a-time sweeps of K, OP, RAND over {35.207 set 1, zero, ones, counting, %d one-hot} with the others at 3 bases, AMF all 65536, SQN alphabet; "+
-		"Milenage_check: full product of 8x8 (network SQN, UE SQN) x 3 (K,OP,RAND) triples x AMF{0000,8000,b9b9,ffff}; for every valid AUTN every single-bit (128) and single-octet (16x255) corruption; same for AUTS (112 bits, 14x255); "+
+		"Milenage_check: full product of 8x8 (network SQN, UE SQN) x 3 (K,OP,RAND) triples x AMF{0000,8000,b9b9,ffff}; for every valid AUTN every single-bit (128) and single-octet (16x255) corruption and every pair of octets changed by the same difference (120x255); same for AUTS (112 bits, 14x255, 91x255), the token also in buffers of 15, 16 and 32 octets; AUTN generation also with SQN and AMF handed over inside the output buffer; "+
 		"every f1..f5* case also in one sequential history in which the caller overwrites one buffer per argument in place, and consecutive calls with related inputs (same K under two OPs with RAND2 = RAND1 xor OPc1 xor OPc2, i.e. equal first-pass blocks; same OPc and RAND under two keys); oracle: refcrypto verdict (accept iff MAC-A right and SQN greater; stale SQN -> AUTS that verifies and yields the UE SQN); non-trivial = all (distinct case strings hashed)", onehot)
 	r.Assume("refcrypto Milenage anchored on all eight values of TS 35.207 test set 1", "128-bit values outside the structured alphabet are not enumerated")
 	ks, ops, rands := vec128(k0, onehot), vec128(op0, onehot), vec128(rand0, onehot)
@@ -356,6 +383,17 @@ func runC15(ctx *Ctx) {
 					c15check(r, l, j.in, opc, a, j.ue, fmt.Sprintf("octet %d xor %#x", pos, d))
 				}
 			}
+			// two octets changed by the same difference (differences that cancel in a folded comparison), every pair of positions
+			for p1 := 0; p1 < 16; p1++ {
+				for p2 := p1 + 1; p2 < 16; p2++ {
+					for d := 1; d < 256; d++ {
+						a := append([]byte{}, autn...)
+						a[p1] ^= byte(d)
+						a[p2] ^= byte(d)
+						c15check(r, l, j.in, opc, a, j.ue, fmt.Sprintf("octets %d and %d xor %#x", p1, p2, d))
+					}
+				}
+			}
 		}
 		if sqnVal(j.in.sqn) <= sqnVal(j.ue) && (ctx.Thorough || i%8 == 0) {
 			// AUTS corruptions
@@ -376,6 +414,16 @@ func runC15(ctx *Ctx) {
 					a := append([]byte{}, auts...)
 					a[pos] ^= byte(d)
 					c15autsCorrupt(r, l, j.in, opc, a, fmt.Sprintf("octet %d xor %#x", pos, d))
+				}
+			}
+			for p1 := 0; p1 < 14; p1++ {
+				for p2 := p1 + 1; p2 < 14; p2++ {
+					for d := 1; d < 256; d++ {
+						a := append([]byte{}, auts...)
+						a[p1] ^= byte(d)
+						a[p2] ^= byte(d)
+						c15autsCorrupt(r, l, j.in, opc, a, fmt.Sprintf("octets %d and %d xor %#x", p1, p2, d))
+					}
 				}
 			}
 		}
